@@ -105,9 +105,14 @@ def expected(term, ctx):
   if h == "W":
     data, si, t = ctx.const_data(term[1])
     bits, sym, gran = WCFG[term[2]]
-    code, _ = ctx.consumer_code(si, t)
+    code, cop = ctx.consumer_code(si, t)
     if gran == "CHANNELWISE":
-      qd = KERNEL_QDIM.get(code, data.ndim - 1)
+      if code == "BATCH_MATMUL":
+        # output channels of the rhs: last dimension, or the one before it when the rhs is used transposed (adj_y)
+        oi = ctx.scn["subs"][si]["ops"].index(cop)
+        qd = data.ndim - 2 if ctx.info.get("bmm_adjy", {}).get("%d,%d" % (si, oi)) else data.ndim - 1
+      else:
+        qd = KERNEL_QDIM[code]
       red = tuple(d for d in range(data.ndim) if d != qd)
       mns, mxs = data.min(axis=red), data.max(axis=red)
       return {"kind": "uniform", "bits": bits, "sym": sym, "qd": qd, "ranges": [(frac(a), frac(b)) for a, b in zip(mns, mxs)], "data": data}
